@@ -146,6 +146,7 @@ type status struct {
 
 func main() {
 	id, dir := os.Args[1], os.Args[2]
+	debug.SetMaxStack(96 << 20) // unbounded recursion in a generator surfaces as a fatal error quickly
 	st := &status{Files: map[string][]string{}}
 	func() {
 		defer func() {
@@ -239,7 +240,7 @@ func (b *Batch) GenerateOne(d *Design, dir string) {
 	_ = os.MkdirAll(dir, 0o755)
 	t0 := time.Now()
 	args := append([]string{d.ID, dir}, b.Cmds...)
-	so, se, err := b.run(b.Dir, 120*time.Second, b.labgen, args...)
+	so, se, err := b.run(b.Dir, 45*time.Second, b.labgen, args...)
 	d.GenSecs = time.Since(t0).Seconds()
 	d.Stderr = tail(se, 4000)
 	i := strings.LastIndex(so, "LABGEN-STATUS ")
@@ -249,7 +250,7 @@ func (b *Batch) GenerateOne(d *Design, dir string) {
 			d.Status = "timeout"
 		}
 		d.Errors = fmt.Sprintf("%v", err)
-		d.Stack = tail(se, 6000)
+		d.Stack = headS(se, 8000)
 		return
 	}
 	var st struct {
@@ -432,4 +433,11 @@ func SortedKeys(m map[string]string) []string {
 	}
 	sort.Strings(ks)
 	return ks
+}
+
+func headS(s string, n int) string {
+	if len(s) > n {
+		return s[:n] + "…"
+	}
+	return s
 }
